@@ -28,6 +28,10 @@ pub struct GenCfg {
     pub empty_strings: bool,
     /// weight of create/drop table ops (0..100)
     pub ddl_pct: u64,
+    /// (0 = never) one insert in this many is a batch of 700 / 1,100 / 2,300 rows: table streams, the string pool and the
+    /// string data then cross the container's 4 KiB mini-stream cutoff and its 8 KiB buffers (both ways,
+    /// since later deletes shrink them again)
+    pub big_batch_one_in: u64,
 }
 
 impl Default for GenCfg {
@@ -46,6 +50,7 @@ impl Default for GenCfg {
             huge_strings: false,
             empty_strings: true,
             ddl_pct: 12,
+            big_batch_one_in: 0,
         }
     }
 }
@@ -613,7 +618,10 @@ impl Gen {
         let t = &model.tables[&table];
         match self.rng.below(10) {
             0..=4 => {
-                let n = 1 + self.rng.usize(self.cfg.max_batch);
+                let mut n = 1 + self.rng.usize(self.cfg.max_batch);
+                if self.cfg.big_batch_one_in > 0 && self.rng.chance(1, self.cfg.big_batch_one_in) {
+                    n = *self.rng.pick(&[700usize, 1_100, 2_300]);
+                }
                 let mut rows = Vec::new();
                 for _ in 0..n {
                     if let Some(r) = self.fresh_row(model, &table, &rows) {
